@@ -152,7 +152,7 @@ pub fn check_case(c: &ScriptCase, obs: &mut Obs) -> Verdict {
     let eq = |i: usize, j: usize| old[i] == new[j];
     let input_ops: Vec<DiffOp> = c.script.iter().map(|s| s.to_op()).collect();
     let (d0, i0, _) = ops_cost(&input_ops);
-    let stack = c.stack % 5;
+    let stack = c.stack % 6;
     let out: Result<Result<Vec<DiffOp>, String>, String> = guard(|| match stack {
         0 => {
             let mut h = Compact::new(Capture::new(), &old[..], &new[..]);
@@ -172,6 +172,13 @@ pub fn check_case(c: &ScriptCase, obs: &mut Obs) -> Verdict {
         3 => {
             // the reversed stacking: Replace feeds replace()/delete()/insert() calls into Compact
             let mut h = Replace::new(Compact::new(Capture::new(), &old[..], &new[..]));
+            drive(&mut h, &c.script).unwrap();
+            h.finish().unwrap();
+            Ok(h.into_inner().into_inner().into_ops())
+        }
+        5 => {
+            // replace events arrive at a Replace adapter
+            let mut h = Replace::new(Replace::new(Capture::new()));
             drive(&mut h, &c.script).unwrap();
             h.finish().unwrap();
             Ok(h.into_inner().into_inner().into_ops())
@@ -199,7 +206,7 @@ pub fn check_case(c: &ScriptCase, obs: &mut Obs) -> Verdict {
             Ok(h.into_inner().into_inner().into_ops())
         }
     });
-    let name = ["Compact<Capture>", "Replace<Capture>", "Compact<Replace<Capture>>", "Replace<Compact<Capture>>", "Compact<&mut Replace<&mut Capture>>"][stack as usize];
+    let name = ["Compact<Capture>", "Replace<Capture>", "Compact<Replace<Capture>>", "Replace<Compact<Capture>>", "Compact<&mut Replace<&mut Capture>>", "Replace<Replace<Capture>>"][stack as usize];
     let ops = match out {
         Ok(Ok(o)) => o,
         Ok(Err(m)) => return Verdict::Fail(format!("{}: {}", name, m)),
@@ -233,7 +240,7 @@ pub fn check_case(c: &ScriptCase, obs: &mut Obs) -> Verdict {
             return Verdict::Fail(format!("{}: script {:?} -> ops {:?}: not in normal form: {}", name, c.script, ops, m));
         }
     }
-    if stack == 1 {
+    if stack == 1 || stack == 5 {
         if let Err((_, m)) = carried_exact(&ops, c.base.0, c.base.1) {
             return Verdict::Fail(format!("{}: script {:?} -> ops {:?}: {}", name, c.script, ops, m));
         }
@@ -288,7 +295,7 @@ pub fn strat(tier: Tier) -> BoxedStrategy<ScriptCase> {
         ScriptCase { old, new, script, stack, base: (0, 0) }.with_base(po, pn)
     });
     // long runs: equal() calls of hundreds of items next to edits that repeat the run's items
-    let long = (1usize..3, 100usize..400, vec((any::<u16>(), 0u8..3, 1u8..4), 1..=4), vec((prop_oneof![6 => Just(0u8), 1 => Just(1u8), 1 => Just(2u8)], prop_oneof![1 => 1u8..4, 3 => Just(255u8)]), 0..=10), 0u8..5).prop_map(|(p, n, edits, choices, stack)| {
+    let long = (1usize..3, 100usize..400, vec((any::<u16>(), 0u8..3, 1u8..4), 1..=4), vec((prop_oneof![6 => Just(0u8), 1 => Just(1u8), 1 => Just(2u8)], prop_oneof![1 => 1u8..4, 3 => Just(255u8)]), 0..=10), 0u8..6).prop_map(|(p, n, edits, choices, stack)| {
         let old: Vec<u32> = (0..n).map(|i| (i % p) as u32).collect();
         let mut new = old.clone();
         for (at, kind, len) in edits {
@@ -358,7 +365,7 @@ pub fn enum_scripts(tier: Tier, f: &mut dyn FnMut(ScriptCase) -> bool) {
         for b in &seqs {
             let mut cur = vec![];
             let ok = all_scripts(a, b, 0, 0, &mut cur, &mut |s: &[SOp]| {
-                for stack in 0..5u8 {
+                for stack in 0..6u8 {
                     if !f(ScriptCase { old: a.clone(), new: b.clone(), script: s.to_vec(), stack, base: (0, 0) }) {
                         return false;
                     }
@@ -376,7 +383,7 @@ impl Prop for C10 {
     type Case = ScriptCase;
     const ID: &'static str = "C10";
     fn rule() -> String {
-        "cases = (old, new, valid edit script as a history of equal/delete/insert hook calls with exact indices, adapter stack in {Compact, Replace, Compact<Replace>, Replace<Compact>, Compact<&mut Replace<&mut Capture>> (adapters that only borrow the hook behind them)}); 1 case in ~60 uses periodic sequences of 100-400 items so that single equal() calls span hundreds of items next to edits that repeat the run's items; scripts are built by an interpreter from a generated list of choices (so run splitting, insert-before-delete and non-minimal scripts all occur); a third of the random scripts cover old[a..] / new[b..] behind 0-4 padding items (non-zero index bases), single calls are up to 12 items long and, in the enumeration stage, by a DFS over ALL valid scripts (with run splitting) of all pairs over {0,1} with lengths <= 3. Oracle: output is a valid script (walk + element equality), same number of deleted and of inserted items, nothing forwarded by Compact before finish, normal form through both adapters, exact carried indices through Replace alone (also when ONE Replace adapter is fed the script twice, finish after each), no panic. Non-trivial = script has >= 2 calls incl. a change and the adapter output differs from the input; distinct = distinct serialized case. The generator validates every script with the C01 stream validator before use (failure => exit 2).".into()
+        "cases = (old, new, valid edit script as a history of equal/delete/insert hook calls with exact indices, adapter stack in {Compact, Replace, Compact<Replace>, Replace<Compact>, Compact<&mut Replace<&mut Capture>> (adapters that only borrow the hook behind them), Replace<Replace<Capture>>}); 1 case in ~60 uses periodic sequences of 100-400 items so that single equal() calls span hundreds of items next to edits that repeat the run's items; scripts are built by an interpreter from a generated list of choices (so run splitting, insert-before-delete and non-minimal scripts all occur); a third of the random scripts cover old[a..] / new[b..] behind 0-4 padding items (non-zero index bases), single calls are up to 12 items long and, in the enumeration stage, by a DFS over ALL valid scripts (with run splitting) of all pairs over {0,1} with lengths <= 3. Oracle: output is a valid script (walk + element equality), same number of deleted and of inserted items, nothing forwarded by Compact before finish, normal form through both adapters, exact carried indices through Replace alone (also when ONE Replace adapter is fed the script twice, finish after each), no panic. Non-trivial = script has >= 2 calls incl. a change and the adapter output differs from the input; distinct = distinct serialized case. The generator validates every script with the C01 stream validator before use (failure => exit 2).".into()
     }
     fn assumptions() -> Vec<String> {
         vec!["scripts are driven through DiffOp::apply_to_hook + finish as in the library's own Compact::finish".into()]
